@@ -214,6 +214,7 @@ class Lib:
             if name == 'push_back': return 'str_push_back(%s, %s)' % (objaddr(), P.ex(A[0]))
             if name == 'append' and len(A) == 1: return 'str_append(%s, %s)' % (objaddr(), self.as_sv(P, A[0]))
             if name == 'clear': return 'str_clear(%s)' % objaddr()
+            if name == 'shrink_to_fit': return '((void)0)'
             if name == 'reserve': return 'str_reserve(%s, %s)' % (objaddr(), P.ex(A[0]))
             if name == 'substr':
                 P.note_throw()
